@@ -51,8 +51,12 @@ def confirm(sd):
     try:
         r = sh([PY, "-m", "pytest", "-q", "-p", "no:cacheprovider", "--timeout=900"], cwd=d, env=env_for(d))
         tail = r.stdout.strip().splitlines()[-1] if r.stdout.strip() else ""
-        if r.returncode != 0:  # constexpr tests time out under load: rerun the failures once
-            r2 = sh([PY, "-m", "pytest", "-q", "-p", "no:cacheprovider", "--timeout=900", "-k", "constexpr or sorter"], cwd=d, env=env_for(d))
+        if r.returncode != 0:  # constexpr tests time out under load (1 s helper limit): rerun those a few times
+            for attempt in range(5):
+                time.sleep(3 * attempt)
+                r2 = sh([PY, "-m", "pytest", "-q", "-p", "no:cacheprovider", "--timeout=900", "-k", "constexpr or sorter"], cwd=d, env=env_for(d))
+                if r2.returncode == 0:
+                    break
             fails = [l for l in r.stdout.splitlines() if l.startswith("FAILED")]
             only_flaky = all(("constexpr" in l or "sorter" in l) for l in fails)
             out["tests_with_patch"] = "pass (after rerun of load-sensitive constexpr tests)" if (only_flaky and r2.returncode == 0) else "FAIL: " + tail
